@@ -683,11 +683,20 @@ func coldEntries(c *core.Ctx, k *core.Case) {
 		want[g] = true
 	}
 	g, per := int(k.I[1]), int(k.I[2])
+	if os.Getenv("VERIF_RACE_SIDE") == "1" {
+		// under the race detector an unsynchronised first use is reported however few the
+		// workers are; 128 spinning goroutines on instrumented code only burn time
+		if g > 16 {
+			g = 16
+		}
+		per = 2
+	}
 	base := prng.New(uint64(k.I[0]))
 	for ei, e := range coldEntryTable(sp) {
 		if !want[e.group] {
 			continue
 		}
+		c.J.Tick()
 		seeds := make([][]uint64, g)
 		res := make([][]uint64, g)
 		for w := range seeds {
